@@ -149,18 +149,29 @@ def tailStep (repo : Repo) (o : Opts) (st : St) (r : Req) (idx : Nat) (pkg : Pkg
       if !o.filterArch.isEmpty && kws2.isEmpty then .next { st with filtered := true }
       else .next { st with yields := st.yields ++ [(idx, kws2)], yielded := true }
 
-/-- the sentinels and the unknown-keyword check -/
-def sentinelStep (repo : Repo) (o : Opts) (st : St) (r : Req) (idx : Nat) (pkg : Pkg) : Step :=
+inductive Expanded
+  | skip                      -- NO_KEYWORDS: `continue`
+  | bad                       -- SAME_KEYWORDS on the first line: KeywordNoMatch
+  | kws (l : List Str)
+
+/-- the three sentinels -/
+def expandSentinels (repo : Repo) (o : Opts) (st : St) (r : Req) (pkg : Pkg) : Expanded :=
   let kws := r.written.map (lstrip ['~'])
-  if kws.contains ['-'] then .next st
+  if kws.contains ['-'] then .skip
   else
     let kws := if kws.contains ['*'] then sortKw (suggested repo pkg o.stable) ++ kws.filter (· ≠ ['*']) else kws
     let sameUse := kws.contains ['^']
-    if sameUse && st.previous.isNone then .raise .keywordNoMatch
-    else
-      let kws := if sameUse then (st.previous.getD []) ++ kws.filter (· ≠ ['^']) else kws
-      if kws.any (fun k => !repo.known.contains k) then .raise .keywordNoMatch
-      else tailStep repo o st r idx pkg kws
+    if sameUse && st.previous.isNone then .bad
+    else .kws (if sameUse then (st.previous.getD []) ++ kws.filter (· ≠ ['^']) else kws)
+
+/-- the sentinels and the unknown-keyword check -/
+def sentinelStep (repo : Repo) (o : Opts) (st : St) (r : Req) (idx : Nat) (pkg : Pkg) : Step :=
+  match expandSentinels repo o st r pkg with
+  | .skip => .next st
+  | .bad => .raise .keywordNoMatch
+  | .kws kws =>
+    if kws.any (fun k => !repo.known.contains k) then .raise .keywordNoMatch
+    else tailStep repo o st r idx pkg kws
 
 /-- `matched[0] if stable and matched else select_best_version(matched)` -/
 def pick (repo : Repo) (o : Opts) (r : Req) : Option (Nat × Pkg) :=
